@@ -17,6 +17,7 @@ mod gen;
 mod ops;
 mod ops_bulk;
 mod ops_fmt;
+mod ops_iter;
 mod ops_map;
 mod ops_serde;
 mod ops_set;
@@ -54,6 +55,9 @@ pub fn args_map(args: &[String]) -> (BTreeMap<String, String>, Vec<String>) {
 }
 
 fn quiet_panics() {
+    if std::env::var("MICROSIM_LOUD").is_ok() {
+        return;
+    }
     // injected panics and the container's own panics are part of normal operation
     std::panic::set_hook(Box::new(|_| {}));
 }
